@@ -1,5 +1,6 @@
 import Driver.Proto
 import Driver.Ops.C06
+import Driver.Ops.C13
 
 /-! pqdriver: one request per line on stdin, one answer per line on stdout.
     Each property registers its ops in `Driver/Ops/<id>.lean` as
@@ -7,7 +8,8 @@ import Driver.Ops.C06
 namespace Driver
 
 def handlers : List (List String → Option String) := [
-  Ops.C06.handle
+  Ops.C06.handle,
+  Ops.C13.handle
 ]
 
 /-- never defaults an unparsable request -/
